@@ -94,8 +94,15 @@ def alignment_columns(aln):
             str(aln.alignment_block_length), str(aln.mapping_quality)]
 
 
-def build_index(gaf_path, gfa_path, out, via="api"):
+def build_index(gaf_path, gfa_path, out, via="api", stale=False):
     from gaftools.cli import index
+
+    if stale and out:
+        # the output path already holds the (newer) index of some other GAF: indexing replaces it
+        import pickle
+
+        with open(out, "wb") as f:
+            pickle.dump({("zz9", "chrZ", 0, 5): [0, 7], "ref_contig": ["chrZ"]}, f)
 
     if via != "api":
         # through the command line, with paths relative to the working directory (a bare file name for -o)
